@@ -553,7 +553,6 @@ func kindSubsumes(cfg, hcl string) bool {
 	return false
 }
 
-
 // c16OwnParser decides O16.7.
 func c16OwnParser(c *Ctx) {
 	P := c.P
